@@ -6,7 +6,7 @@ from ..automat_x import Program
 from ..astutil import dotted, const, params, local_defs, is_self_attr, calls_named, same_expr, walk_shallow, enclosing_function
 from ..dataflow import expand
 from ..effects import class_writers, is_const
-from ..cfg import build
+from ..cfg import build, truthy_atom, cmp_atom, none_atom, in_atom
 from ..siblings import eval_int
 from ..tablerules import rows_calling, row_calls
 from ..selftest import Mutant, Rewrite
@@ -107,41 +107,61 @@ def r2(tree, rep):
         rep.check("C16.R2", "Manager.%s cancels a pending interval timer and clears it" % name, ok, site(fn, MGR), key="C16.R2:%s:timer" % name,
                   what="an interval timer of the old connection survives %s and is later counted against the next connection" % name)
     sr = tree.func(MGR, "Manager", "_signal_reconnect")
-    g = build(sr)
+    g = build(sr, split=True)
     dc = g.call_nodes(lambda c: dotted(c.func) == "self._connection.disconnect")
-    ct = [t for t in g.nodes(lambda s: isinstance(s, ast.If)) if is_self_attr(g.stmt[t].test, "_connection")]
-    ok = len(dc) == 1 and len(ct) == 1 and g.must_pass(dc, start=g.branch_targets(ct[0], 'T'), to=[g.exit], explicit_only=True) and g.must_pass(ct)
+    connected = truthy_atom(lambda e: is_self_attr(e, "_connection"))
+    ce = g.cond_edges(connected, True)
+    ok = len(dc) == 1 and bool(ce) and all(g.exit not in g.reach([y], avoid_nodes=set(dc), explicit_only=True) for (x, y, l) in ce) \
+        and not g.only_when(dc, connected, True)
     rep.check("C16.R2", "_signal_reconnect drops the current connection", ok, site(sr, MGR), key="C16.R2:_signal_reconnect")
     sp = tree.func(MGR, "Manager", "_send_ping_reset_timer")
     nested = {n.name: n for n in ast.walk(sp) if isinstance(n, ast.FunctionDef) and n is not sp}
+    mgr_methods = tree.methods(MGR, "Manager")
+
+    def callback_of(e):
+        """the function a callback expression denotes: a closure of _send_ping_reset_timer, a lambda, or a bound method of Manager"""
+        if isinstance(e, ast.Name) and e.id in nested:
+            return nested[e.id]
+        if isinstance(e, ast.Lambda):
+            return e
+        if is_self_attr(e) and e.attr in mgr_methods:
+            return mgr_methods[e.attr]
+        return None
     # pong callback: the only caller of traffic_seen
     ts_sites = []
     for c in ast.walk(tree.ast(MGR)):
         if isinstance(c, ast.Call) and dotted(c.func) == "self._traffic.traffic_seen":
             ts_sites.append(enclosing_function(c))
-    ok = len(ts_sites) == 1 and ts_sites[0].name in nested
-    pongcb = ts_sites[0].name if ok else None
     sping = [c for c in ast.walk(sp) if isinstance(c, ast.Call) and dotted(c.func) == "self.send_ping"]
-    ok = ok and len(sping) == 1 and len(sping[0].args) == 2 and isinstance(sping[0].args[1], ast.Name) and sping[0].args[1].id == pongcb \
-        and isinstance(sping[0].args[0], ast.Call) and dotted(sping[0].args[0].func) == "os.urandom" and eval_int(sping[0].args[0].args[0]) == 4
+    ok = len(ts_sites) == 1 and len(sping) == 1 and len(sping[0].args) == 2
+    if ok:
+        cbf = callback_of(sping[0].args[1])
+        # the one traffic_seen site is inside the function handed to send_ping as the pong callback
+        ok = cbf is not None and any(isinstance(c, ast.Call) and dotted(c.func) == "self._traffic.traffic_seen" for c in ast.walk(cbf)) \
+            and (ts_sites[0] is cbf or (isinstance(cbf, ast.Lambda) and ts_sites[0] is sp))
+        from ..astutil import resolve_local as _rl
+        pid = sping[0].args[0]
+        if isinstance(pid, ast.Name):
+            pid = _rl(sp, pid)
+        ok = ok and isinstance(pid, ast.Call) and dotted(pid.func) == "os.urandom" and eval_int(pid.args[0]) == 4
     rep.check("C16.R2", "each timing step sends a ping with a fresh 4-byte id whose pong callback (and nothing else) reports traffic_seen", ok, site(sp, MGR),
               key="C16.R2:ping-pong-traffic", what="traffic is reported from somewhere other than a matching pong, or pings are not sent")
     hp = tree.func(MGR, "Manager", "handle_pong")
-    g = build(hp)
+    g = build(hp, split=True)
     cb = g.call_nodes(lambda c: isinstance(c.func, ast.Name) and c.func.id == "on_pong")
-    known = [t for t in g.nodes(lambda s: isinstance(s, ast.If)) if isinstance(g.stmt[t].test, ast.Compare) and isinstance(g.stmt[t].test.ops[0], (ast.NotIn, ast.In))
-             and is_self_attr(g.stmt[t].test.comparators[0], "_pings_outstanding")]
-    ok = len(cb) == 1 and len(known) == 1
+    outstanding = in_atom(lambda e: isinstance(e, ast.Name) and e.id in params(hp), lambda e: is_self_attr(e, "_pings_outstanding"))
+    ok = len(cb) == 1 and bool(g.cond_edges(outstanding, False)) and not g.only_when(cb, outstanding, True)
     if ok:
-        lab = 'F' if isinstance(g.stmt[known[0]].test.ops[0], ast.NotIn) else 'T'
-        ok = not g.guarded_by(known, cb, lab)
         pops = [c for c in ast.walk(hp) if isinstance(c, ast.Call) and dotted(c.func) == "self._pings_outstanding.pop"]
-        ok = ok and len(pops) == 1
+        dels = [d for d in ast.walk(hp) if isinstance(d, ast.Delete) and any(isinstance(t, ast.Subscript) and is_self_attr(t.value, "_pings_outstanding")
+                                                                           for t in d.targets)]
+        ok = len(pops) + len(dels) == 1
     rep.check("C16.R2", "a pong counts only if it answers an outstanding ping (which is then retired)", ok, site(hp, MGR), key="C16.R2:handle_pong")
     # the interval timer
     cl_ = [c for c in ast.walk(sp) if isinstance(c, ast.Call) and dotted(c.func) == "self._reactor.callLater"]
-    ok = len(cl_) == 1 and is_self_attr(cl_[0].args[0], "_ping_interval") and isinstance(cl_[0].args[1], ast.Name) and cl_[0].args[1].id in nested
-    texp = nested.get(cl_[0].args[1].id) if ok else None
+    ok = len(cl_) == 1 and is_self_attr(cl_[0].args[0], "_ping_interval") and len(cl_[0].args) == 2 and callback_of(cl_[0].args[1]) is not None \
+        and not isinstance(callback_of(cl_[0].args[1]), ast.Lambda)
+    texp = callback_of(cl_[0].args[1]) if ok else None
     asg = [n for n in ast.walk(sp) if isinstance(n, ast.Assign) and any(is_self_attr(t, "_timer") for t in n.targets) and n.value in cl_]
     ok = ok and len(asg) == 1
     rep.check("C16.R2", "the interval timer is callLater(self._ping_interval, <expiry>) stored in self._timer", ok, site(sp, MGR), key="C16.R2:interval-timer")
@@ -154,14 +174,16 @@ def r2(tree, rep):
                   site(texp, MGR), key="C16.R2:expiry-clears-timer",
                   what="a fired DelayedCall can stay in self._timer: the next cancel() raises AlreadyCalled inside connection-loss / stop handling")
     # guard of the arm branch: only when no timer is pending
-    g = build(sp)
+    g = build(sp, split=True)
     arm = g.call_nodes(lambda c: dotted(c.func) == "self._reactor.callLater")
-    nt = [t for t in g.nodes(lambda s: isinstance(s, ast.If)) if isinstance(g.stmt[t].test, ast.Compare) and is_self_attr(g.stmt[t].test.left, "_timer")
-          and isinstance(g.stmt[t].test.ops[0], ast.Is) and const(g.stmt[t].test.comparators[0]) is None]
-    ok = len(nt) == 1 and len(arm) == 1 and not g.guarded_by(nt, arm, 'T')
+    no_timer = none_atom(lambda e: is_self_attr(e, "_timer"))
+    ok = len(arm) == 1 and not g.only_when(arm, no_timer, True)
     rep.check("C16.R2", "a new interval timer is armed only when none is pending (self._timer is None)", ok, site(sp, MGR), key="C16.R2:arm-guard")
     own, foreign = class_writers(tree, "Manager", "_timer")
-    ok = not foreign and all(w.fn in ("__attrs_post_init__", "_send_ping_reset_timer", "timer_expired", "_stop_using_connection", "abandon_connection") for w in own)
+    allowed_w = {"__attrs_post_init__", "_send_ping_reset_timer", "_stop_using_connection", "abandon_connection"}
+    if texp is not None:
+        allowed_w.add(texp.name)
+    ok = not foreign and all(w.fn in allowed_w for w in own)
     rep.check("C16.R2", "Manager._timer writers are the constructor, the arm/expiry pair and the two cancel sites", ok, MGR, key="C16.R2:_timer-writers",
               what="writers: %s" % [w.brief() for w in own + foreign])
 
